@@ -129,7 +129,7 @@ func genCase(t *rapid.T) Case {
 						uniq[p.Col] = true
 					} else {
 						for _, col := range tb.Cols {
-							if strings.Contains(p.Expr, `"`+col.Name+`"`) {
+							if strings.Contains(p.Expr, `"`+col.Name+`"`) || strings.Contains(p.Expr, "["+col.Name+"]") {
 								uniq[col.Name] = true
 							}
 						}
